@@ -80,6 +80,15 @@ func hRealtimeMsg() *gtfsrt.FeedMessage {
 		// a second trip claiming the first vehicle (not conflict-free, but a parse of it must still be deterministic)
 		e3.Vehicle = &gtfsrt.VehicleDescriptor{Id: &va}
 	}
+	if vr.Param("SAMEKEY", 0) == 1 {
+		// descriptors that differ only in whether a (zero) start time is present: distinct trips whose order must still be fixed
+		tid, rid, midnight := "T", "R", "00:00:00"
+		return &gtfsrt.FeedMessage{Header: &gtfsrt.FeedHeader{GtfsRealtimeVersion: &v}, Entity: []*gtfsrt.FeedEntity{
+			{Id: hStr("k1"), TripUpdate: &gtfsrt.TripUpdate{Trip: &gtfsrt.TripDescriptor{TripId: &tid, RouteId: &rid, StartTime: &midnight}}},
+			{Id: hStr("k2"), TripUpdate: &gtfsrt.TripUpdate{Trip: &gtfsrt.TripDescriptor{TripId: &tid, RouteId: &rid}}},
+			{Id: hStr("k3"), TripUpdate: &gtfsrt.TripUpdate{Trip: &gtfsrt.TripDescriptor{TripId: &tid, RouteId: &rid, DirectionId: vr.P(uint32(0))}}},
+		}}
+	}
 	return &gtfsrt.FeedMessage{Header: &gtfsrt.FeedHeader{GtfsRealtimeVersion: &v}, Entity: []*gtfsrt.FeedEntity{
 		{Id: hStr("e1"), Vehicle: &gtfsrt.VehiclePosition{Vehicle: &gtfsrt.VehicleDescriptor{Id: &va}, Trip: &gtfsrt.TripDescriptor{TripId: &ta}}},
 		{Id: hStr("e2"), Vehicle: &gtfsrt.VehiclePosition{Vehicle: &gtfsrt.VehicleDescriptor{Id: &vb}}},
